@@ -2,6 +2,7 @@ package props
 
 import (
 	"fmt"
+	"io"
 	"runtime"
 	"strings"
 	"sync"
@@ -12,6 +13,7 @@ import (
 	"pgregory.net/rapid"
 
 	"verifharness/evid"
+	"verifharness/fakemc"
 	"verifharness/refmodel"
 	"verifharness/stack"
 	"verifharness/wire"
@@ -104,8 +106,54 @@ func TestC14(t *testing.T) {
 			}
 			hostileInputs = append(hostileInputs, stream)
 		}
+		// neighbours that lose their backend connection: with one backend connection
+		// per client connection (std and chunked handlers), every request naming a
+		// key that starts with "poison" has the backend close that connection instead
+		// of answering.  What rend then does to the neighbour is not the subject here;
+		// the other connections must not notice.
+		poisoned := 0
+		if cfg.L1 == "std" || cfg.L1 == "chunked" {
+			poisoned = rapid.SampledFrom([]int{0, 0, 1, 2}).Draw(t, "poisonedNeighbours")
+		}
+		var poisonInputs [][]byte
+		if poisoned > 0 {
+			isPoison := func(r *fakemc.Req) bool { return strings.HasPrefix(r.Key, "poison") }
+			st.L1.Arm(&fakemc.Fault{Match: isPoison, Kind: fakemc.FaultCloseBefore, Repeat: true})
+			defer st.L1.Disarm()
+			if st.L2 != nil {
+				st.L2.Arm(&fakemc.Fault{Match: isPoison, Kind: fakemc.FaultCloseBefore, Repeat: true})
+				defer st.L2.Disarm()
+			}
+			for pi := 0; pi < 8; pi++ {
+				k := fmt.Sprintf("poison-%d", pi%3)
+				c := wire.Cmd{Kind: rapid.SampledFrom([]wire.Kind{wire.Touch, wire.Delete, wire.Set, wire.Get, wire.Touch, wire.Delete, wire.Append}).Draw(t, "poisonKind"), Key: k, Value: []byte("p"), Exptime: 0}
+				if c.Kind == wire.Get {
+					c = wire.Cmd{Kind: wire.Get, Keys: []string{k}}
+				}
+				poisonInputs = append(poisonInputs, encodeCmd(binary, c))
+			}
+		}
 		stopHostile := make(chan struct{})
 		var hwg sync.WaitGroup
+		for pi := 0; pi < poisoned; pi++ {
+			hwg.Add(1)
+			go func(pi int) {
+				defer hwg.Done()
+				for round := 0; round < 60; round++ {
+					select {
+					case <-stopHostile:
+						return
+					default:
+					}
+					conn := st.Dial(0)
+					conn.Write(poisonInputs[(pi*3+round)%len(poisonInputs)])
+					conn.SetReadDeadline(time.Now().Add(200 * time.Millisecond))
+					io.Copy(io.Discard, conn) // until rend answers with an error and/or closes
+					conn.Close()
+					time.Sleep(2 * time.Millisecond)
+				}
+			}(pi)
+		}
 		for hi := 0; hi < hostile; hi++ {
 			hwg.Add(1)
 			go func(hi int) {
@@ -182,7 +230,7 @@ func TestC14(t *testing.T) {
 			}
 		}
 		nt := overlapped > 0 && failedCond > 0
-		rec.Case(nt, fmt.Sprintf("%s|%v|%d|%v|%d", cfg, binary, conns, plans, hostile), "cfg:"+cfg.String(), fmt.Sprintf("connections=%d", conns), fmt.Sprintf("gomaxprocs=%d", procs), fmt.Sprintf("hostile-neighbours=%d", hostile))
+		rec.Case(nt, fmt.Sprintf("%s|%v|%d|%v|%d|%d", cfg, binary, conns, plans, hostile, poisoned), "cfg:"+cfg.String(), fmt.Sprintf("connections=%d", conns), fmt.Sprintf("gomaxprocs=%d", procs), fmt.Sprintf("hostile-neighbours=%d", hostile), fmt.Sprintf("neighbours-losing-their-backend=%d", poisoned))
 		if rec.WantSample(nt) {
 			rec.Sample(nt, map[string]interface{}{"config": cfg.String(), "binary": binary, "connections": conns, "steps_each": steps, "gomaxprocs": procs, "commands_in_flight_together": overlapped, "connection0": cmdsString(plans[0])})
 		}
